@@ -289,6 +289,8 @@ static inline void v_frame_check(const uint8_t *f, size_t len) {
         bool empty = (w == 0);
         V_REQUIRE("C08.chunk: length = min(what fits, what remains from the offset); 'more' iff bytes remain beyond it",
                   exact || (g_req.lt_fault && empty));
+        V_REQUIRE("C02,C08.qlt.payload-within-property: every payload byte the frame declares is a byte of the property - none from beyond its end",
+                  (size_t)(w & 0x3FFFu) <= rem && len == 34u + (size_t)(w & 0x3FFFu));
         if (exact && g_k < n_exp) {
             V_REQUIRE("C08.payload: the bytes at the requested offset", f[34 + g_k] == g_req.lt_data[(size_t)g_req.lt_off + g_k]);
         }
